@@ -23,12 +23,16 @@ def run(chk):
     else:
         replay_cases(chk, "FreeSpace", "FreeSpace_thorough", "all configurations of <=3 blocking rectangles", workers=16, xmx="24g")
         replay_cases(chk, "FreeSpace", "FreeSpace_flags2", "<=2 rectangles x every fixed/obstruction flag combination", workers=16)
-    plan = [dict(flavour="asan-ubsan", scen="free", runs=(400, 10000), opts={"varyScale": 1})]
+    plan = [dict(flavour="asan-ubsan", scen="free", runs=(400, 10000), opts={"varyScale": 1}),
+            # the free rows of the state defined by a history of public mutator calls (flags as given by the caller, any call order)
+            dict(flavour="asan-ubsan", exe="record_proto", scen="api", runs=(300, 8000), opts={})]
     run_plan(chk, "C15", plan, nontrivial)
     chk.cov["rule"] = ("exhaustive: every multiset of rectangles with corners on {before, at, inside, inside, at, after} x {below, at, middle, at, above} "
                        "of one row (degenerate ones included), TLC checks endpoint-based = column-based free space and the replayer compares "
                        "Row::freespace and Circuit::computeRows (cells with every fixed/obstruction flag, extra obstacles) with the expected segment set; "
-                       "random: rows/obstacles at coordinates up to 2^22 recorded and validated endpoint-wise by TLC")
+                       "random: rows/obstacles at coordinates up to 2^22 recorded and validated endpoint-wise by TLC; the rows used by the consumers "
+                       "(Circuit::computeRows, Legalizer::fromIspdCircuit, DetailedPlacement::fromIspdCircuit after legalization) compared with the free space TLC "
+                       "computes from the circuit; computeRows() after every call of random histories of the 14 public mutators, against the state the calls define")
     chk.cov["exhaustive"] = True
     return chk.finish()
 
